@@ -553,6 +553,32 @@ fn to_bigints(w: &[Fr]) -> Vec<num_bigint::BigInt> {
 /// Builds a message through one of the four proving entry points.
 /// Returns Ok(message bytes) / Err(error text); a panic is reported by the caller's guard.
 #[allow(clippy::too_many_arguments)]
+/// Witness bytes `[secret|limit|id|path: count8 + 32n|dirs: count8 + n|x|ext]` with a lying count or cut short.
+fn mangle_witness(mut w: Vec<u8>, code: usize) -> Vec<u8> {
+    if w.len() < 104 {
+        return w;
+    }
+    let n = u64::from_le_bytes(w[96..104].try_into().unwrap());
+    match code {
+        0..=5 => {
+            let v = [n + 1, 1 << 32, 1 << 59, (1 << 61) + 1, u64::MAX, u64::MAX / 32][code];
+            w[96..104].copy_from_slice(&v.to_le_bytes());
+        }
+        6..=9 => {
+            let off = 104 + 32 * n as usize;
+            if w.len() >= off + 8 {
+                let v = [n + 1, 1 << 63, u64::MAX, u64::MAX - 7][code - 6];
+                w[off..off + 8].copy_from_slice(&v.to_le_bytes());
+            }
+        }
+        _ => {
+            let at = ((code - 10) * 37) % w.len();
+            w.truncate(at);
+        }
+    }
+    w
+}
+
 fn prove_via(
     n: &mut NodeRt,
     entry: u8,
@@ -565,6 +591,7 @@ fn prove_via(
     path_override: Option<(Vec<Fr>, Vec<u8>)>,
     truncate: Option<usize>,
     declared: Option<u64>,
+    wit_mangle: Option<usize>,
     reader: &ReadPlan,
     writer: &WritePlan,
     ctx: &mut Ctx,
@@ -618,6 +645,7 @@ fn prove_via(
                 let mut rd = SimReader::new(&request, reader.clone());
                 n.rln.get_serialized_rln_witness(&mut rd).map_err(|e| e.to_string())?
             };
+            let wit = match wit_mangle { Some(c) => mangle_witness(wit, c), None => wit };
             let mut rd2 = SimReader::new(&wit, reader.clone());
             let mut w = SimWriter::new(writer.clone());
             let r = n.rln.generate_rln_proof_with_witness(&mut rd2, &mut w);
@@ -645,6 +673,7 @@ fn prove_via(
         _ => {
             let (p, d) = model_path();
             let wit_bytes = enc_witness(secret, limit, id, &p, &d, &x, ext);
+            let wit_bytes = match wit_mangle { Some(c) => mangle_witness(wit_bytes, c), None => wit_bytes };
             let mut rd = SimReader::new(&wit_bytes, reader.clone());
             let mut w = SimWriter::new(writer.clone());
             let r = n.rln.prove(&mut rd, &mut w);
@@ -760,7 +789,7 @@ pub fn run_trace(trace: &Trace, ctx: &mut Ctx) -> RunOutcome {
                 ctx.proofs += 1;
                 ctx.counters.inc(&format!("entry.{}", entry));
                 let root_then = n.model.root();
-                let r = guarded(|| prove_via(n, *entry, &m.secret, m.index as u64, &m.limit, id, ext, signal, None, None, None, reader, writer, ctx));
+                let r = guarded(|| prove_via(n, *entry, &m.secret, m.index as u64, &m.limit, id, ext, signal, None, None, None, None, reader, writer, ctx));
                 let faulty_io = reader.fail_at.is_some() || writer.fail_at.is_some() || writer.zero_at.is_some();
                 match r {
                     Err(p) => {
@@ -1099,11 +1128,13 @@ pub fn run_trace(trace: &Trace, ctx: &mut Ctx) -> RunOutcome {
                     None
                 };
                 let torn = (*truncate >= 0 && (*truncate as usize) < full_len && *entry <= 1 && *path_len < 0 && *dir_tweak < 0) || declared.is_some();
-                let shape_ok = *path_len < 0 && *dir_tweak < 0 && !torn;
+                // dir_tweak <= -2 selects a mangled witness (lying element count, or cut short) for the entries that take witness bytes
+                let wit_mangle: Option<usize> = if *dir_tweak <= -2 && (*entry == 1 || *entry == 3) { Some((-2 - *dir_tweak) as usize) } else { None };
+                let shape_ok = *path_len < 0 && *dir_tweak < 0 && !torn && wit_mangle.is_none();
                 let satisfiable = in_tree && range_ok && leaf_ok && shape_ok;
                 let trunc = if *truncate >= 0 { Some(*truncate as usize) } else { None };
                 ctx.counters.inc(if satisfiable { "prove_requests_satisfiable" } else { "prove_requests_unsatisfiable" });
-                let r = guarded(|| prove_via(n, *entry, secret, *index, limit, id, ext, signal, path_override.clone(), trunc, declared, reader, writer, ctx));
+                let r = guarded(|| prove_via(n, *entry, secret, *index, limit, id, ext, signal, path_override.clone(), trunc, declared, wit_mangle, reader, writer, ctx));
                 match r {
                     Err(p) => {
                         viol!("C12", si, step, "prove_panic", format!("entry {entry}: {p}"));
